@@ -102,6 +102,7 @@ def run(ctx):
     for k, cn in enumerate(('v5', 'v7', 'v4')):
         tasks += [(chk.corner_shard, ('vf.props.c07:SPEC32', i, 8, ctx.shard_seed(800 + 20 * k + i), ctx.n(2, 20), cn)) for i in range(8)]
     tasks += [(_e1p.shard_repeat, ('vf.props.c07:PLAN_REPEAT', ctx.shard_seed(900 + i), ctx.n(150, 3000))) for i in range(8)]
+    tasks += [(chk.operand_path_shard, ('vf.props.c07:SPEC32', i, 16, ctx.shard_seed(1100 + i), ctx.n(300, 3000))) for i in range(16)]
     ctx.pmap(_dispatch, tasks)
     ctx.acc.exhaustive = True
     ctx.acc.extra['exhaustive_part'] = 'all 16-bit halfwords; 32-bit class selection via the joint region partition; fetch-length rule over all first halfwords'
